@@ -1,0 +1,49 @@
+//go:build verif
+
+// Contracts for the deductive verifier in /verif (gocv); comments only.
+
+package table
+
+
+// ---------------------------------------------------------------------------
+// filter block writer: offsets[i] is where the filter of partition i starts; one partition per 2^baseLg bytes of
+// table offset.
+
+//@ pred (w *filterWriter).fwwf = w.baseLg < 64 && bwf(w.buf) && w.nKeys >= 0
+
+//@ func (*filterWriter).generate
+//@   props C16
+//@   mode bv
+//@   requires w.generator != nil && fwwf(w)
+//@   ensures fwwf(w) && w.nKeys == 0
+//@   ensures [one-slot] len(w.offsets) == len(old(w.offsets)) + 1
+//@   ensures [slot-start] w.offsets[len(w.offsets)-1] == uint32(len(old(w.buf.buf)) - old(w.buf.off))
+//@   ensures [prefix] forall i int :: 0 <= i && i < len(old(w.offsets)) ==> w.offsets[i] == old(w.offsets)[i]
+//@   ensures w.baseLg == old(w.baseLg) && w.generator == old(w.generator)
+
+//@ func (*filterWriter).flush
+//@   props C16
+//@   mode bv
+//@   requires fwwf(w)
+//@   loop 1
+//@     invariant fwwf(w) && w.generator != nil && w.baseLg == old(w.baseLg) && w.generator == old(w.generator)
+//@     invariant x == int(offset / uint64(1 << old(w.baseLg)))
+//@     invariant len(w.offsets) >= len(old(w.offsets)) && (len(w.offsets) > len(old(w.offsets)) ==> len(w.offsets) <= x)
+//@     invariant forall i int :: 0 <= i && i < len(old(w.offsets)) ==> w.offsets[i] == old(w.offsets)[i]
+//@     decreases x - len(w.offsets)
+//@   ensures fwwf(w)
+//@   ensures [partition] w.generator != nil ==> len(w.offsets) == max(len(old(w.offsets)), int(offset / uint64(1 << w.baseLg)))
+//@   ensures [prefix] forall i int :: 0 <= i && i < len(old(w.offsets)) ==> w.offsets[i] == old(w.offsets)[i]
+
+// ---------------------------------------------------------------------------
+// filter block reader
+
+//@ pred (b *filterBlock).fbwf = 0 <= b.oOffset && b.oOffset <= len(b.data) - 5 && b.filtersNum == (len(b.data) - 5 - b.oOffset) / 4 && b.baseLg < 256
+
+//@ func (*filterBlock).contains
+//@   props C16
+//@   mode bv
+//@   safety on
+//@   requires fbwf(b) && offset < 4611686018427387904
+//@   ensures [miss-only-in-slot] !result ==> (int(offset >> b.baseLg) < b.filtersNum)
+//@   ensures [miss-reason] !result ==> (le32(b.data, b.oOffset + int(offset >> b.baseLg)*4) == le32(b.data, b.oOffset + int(offset >> b.baseLg)*4 + 4) || !fcontains(b.data[int(le32(b.data, b.oOffset + int(offset >> b.baseLg)*4)) : int(le32(b.data, b.oOffset + int(offset >> b.baseLg)*4 + 4))], key))
